@@ -1420,6 +1420,66 @@ neg("C04", "neg-puback-body-from-image", "the PUBACK body is decoded from the he
 neg("C04", "neg-unsubscribe-packet-end-local", "UNSUBSCRIBE computes the packet end in a local",
     [("message/unsubscribe.go", _NOTE, "\tend := total + int(m.remlen)\n\tsrc = src[:end]\n")])
 
+neg("C14", "neg-readpeek-copy-assembly", "the wrapped peek is assembled with make-if-too-short and two copies, and cut to the peeked length",
+    [(BUF, "			// reset the tmp buffer\n			bf.tmp = bf.tmp[0:0]\n\n			l := len(bf.buf[cindex:])\n			bf.tmp = append(bf.tmp, bf.buf[cindex:]...)\n			bf.tmp = append(bf.tmp, bf.buf[0:m-int64(l)]...)\n			return bf.tmp, err",
+            "			if int64(len(bf.tmp)) < m {\n				bf.tmp = make([]byte, m)\n			}\n\n			l := copy(bf.tmp, bf.buf[cindex:])\n			copy(bf.tmp[l:], bf.buf[0:m-int64(l)])\n			return bf.tmp[:m], err")])
+pos("C14", "readpeek-copy-assembly-returns-whole-scratch", "the copy-based assembly returns the whole scratch buffer, which keeps the length of the largest earlier wrapped peek",
+    [(BUF, "			// reset the tmp buffer\n			bf.tmp = bf.tmp[0:0]\n\n			l := len(bf.buf[cindex:])\n			bf.tmp = append(bf.tmp, bf.buf[cindex:]...)\n			bf.tmp = append(bf.tmp, bf.buf[0:m-int64(l)]...)\n			return bf.tmp, err",
+            "			if int64(len(bf.tmp)) < m {\n				bf.tmp = make([]byte, m)\n			}\n\n			l := copy(bf.tmp, bf.buf[cindex:])\n			copy(bf.tmp[l:], bf.buf[0:m-int64(l)])\n			return bf.tmp, err")],
+    ["C14/B11-ring-space-accounting/ReadPeek:return"])
+
+# ---------------------------------------------------------------- rules added after the third seeded round
+for _p in ("C02", "C12", "C13"):
+    pos(_p, "session-update-replaces-drained-queue", "a resumed session gets fresh in-flight queues, guarded by the wrong queue's length",
+        [(SESS, "		s.Will.SetRetain(s.Cmsg.WillRetain())\n	}\n\n	return nil\n}\n\n// RetainMessage", "		s.Will.SetRetain(s.Cmsg.WillRetain())\n	}\n\n	if s.Pub2out.len() == 0 {\n		s.Pub2in = newAckqueue(defaultQueueSize)\n	}\n\n	return nil\n}\n\n// RetainMessage")],
+        [_p + "/P9-who-may/Session.Pub2in:created-once-by-Init"])
+neg("C13", "neg-session-init-queues-helper-loop", "Init creates the queues through a local helper closure",
+    [(SESS, "	s.Pub1ack = newAckqueue(defaultQueueSize)\n	s.Pub2in = newAckqueue(defaultQueueSize)\n", "	mk := func() *Ackqueue { return newAckqueue(defaultQueueSize) }\n	s.Pub1ack = mk()\n	s.Pub2in = mk()\n")])
+for _p in ("C06", "C01"):
+    pos(_p, "subscribers-early-return-before-reset", "Subscribers returns nil for an empty tree before it has emptied the caller's reused lists",
+        [(MT, "	*subs = (*subs)[0:0]\n	*qoss = (*qoss)[0:0]\n\n	return mt.sroot.smatch", "	if len(mt.sroot.snodes) == 0 {\n		return nil\n	}\n\n	*subs = (*subs)[0:0]\n	*qoss = (*qoss)[0:0]\n\n	return mt.sroot.smatch")],
+        [_p + "/P5-order/Subscribers:subs:emptied-before-any-successful-return"])
+neg("C06", "neg-subscribers-reset-first", "Subscribers empties the lists first and has an early return for an empty tree afterwards",
+    [(MT, "	*subs = (*subs)[0:0]\n	*qoss = (*qoss)[0:0]\n\n	return mt.sroot.smatch", "	*subs = (*subs)[:0]\n	*qoss = (*qoss)[:0]\n\n	if len(mt.sroot.snodes) == 0 {\n		return nil\n	}\n\n	return mt.sroot.smatch")])
+pos("C08", "rinsert-skips-unchanged-payload", "a retained PUBLISH with the payload already stored is dropped, although its QoS differs",
+    [(MT, "		// A previously stored message may have been handed out by Retained() and\n", "		if rn.msg != nil && string(rn.msg.Payload()) == string(msg.Payload()) {\n			return nil\n		}\n		// A previously stored message may have been handed out by Retained() and\n")],
+    ["C08/P6-on-all-exits/rinsert:base-case:stores-the-message-on-every-successful-path"])
+neg("C08", "neg-rinsert-store-helper", "the store of the fresh copy extracted into a method",
+    [(MT, "		rn.buf = buf\n		rn.msg = rmsg\n", "		rn.replace(buf, rmsg)\n"),
+     (MT, "func (rn *rnode) rinsert(topic []byte, msg *message.PublishMessage) error {", "func (rn *rnode) replace(buf []byte, rmsg *message.PublishMessage) {\n	rn.buf = buf\n	rn.msg = rmsg\n}\n\nfunc (rn *rnode) rinsert(topic []byte, msg *message.PublishMessage) error {")])
+for _p in ("C10", "C16"):
+    pos(_p, "accept-deletes-session-on-connack-failure", "a CONNACK that cannot be written removes the session from the store, persistent or not",
+        [(SRV, "	if err = writeMessage(c, resp); err != nil {\n		return nil, err\n	}\n\n	svc.inStat", "	if err = writeMessage(c, resp); err != nil {\n		svr.sessMgr.Del(svc.sess.ID())\n		return nil, err\n	}\n\n	svc.inStat")],
+        [_p + "/P9-who-may/(*service.Server).handleConnection:Manager.Del:only-at-teardown"])
+    pos(_p, "restore-registers-copy-of-the-callback", "the restored subscriptions are registered under the address of a local copy of the callback",
+        [(SVC, "		for i, t := range topics {\n			svc.topicsMgr.Subscribe([]byte(t), qoss[i], &svc.onpub)\n		}", "		onpub := svc.onpub\n		for i, t := range topics {\n			svc.topicsMgr.Subscribe([]byte(t), qoss[i], &onpub)\n		}")],
+        [_p + "/P9-who-may/start:Subscribe-token"])
+neg("C10", "neg-teardown-delete-helper", "teardown removes a clean session through a helper",
+    [(SVC, "	if svc.sess.Cmsg.CleanSession() && svc.sessMgr != nil {\n		svc.sessMgr.Del(svc.sess.ID())\n	}\n", "	svc.discardCleanSession()\n"),
+     (SVC, "func (svc *service) isDone() bool {", "func (svc *service) discardCleanSession() {\n	if svc.sess.Cmsg.CleanSession() && svc.sessMgr != nil {\n		svc.sessMgr.Del(svc.sess.ID())\n	}\n}\n\nfunc (svc *service) isDone() bool {")])
+pos("C19", "sender-write-moves-read-deadline", "the sender arms a deadline with SetDeadline, which moves the read deadline that bounds the client's silence",
+    [(SR, "func (r timeoutReader) Read(b []byte) (int, error) {", "type timeoutWriter struct {\n	d    time.Duration\n	conn net.Conn\n}\n\nfunc (w timeoutWriter) Write(b []byte) (int, error) {\n	if err := w.conn.SetDeadline(time.Now().Add(w.d)); err != nil {\n		return 0, err\n	}\n	return w.conn.Write(b)\n}\n\nfunc (r timeoutReader) Read(b []byte) (int, error) {"),
+     (SR, "			_, err := svc.out.WriteTo(conn)\n", "			_, err := svc.out.WriteTo(timeoutWriter{d: time.Minute, conn: conn})\n")],
+    ["C19/P9-who-may/(service.timeoutWriter).Write:SetDeadline:read-deadline-moved-only-by-the-deadline-reader"])
+neg("C19", "neg-sender-write-deadline", "the sender arms a write deadline (which does not touch the read deadline)",
+    [(SR, "func (r timeoutReader) Read(b []byte) (int, error) {", "type timeoutWriter struct {\n	d    time.Duration\n	conn net.Conn\n}\n\nfunc (w timeoutWriter) Write(b []byte) (int, error) {\n	if err := w.conn.SetWriteDeadline(time.Now().Add(w.d)); err != nil {\n		return 0, err\n	}\n	return w.conn.Write(b)\n}\n\nfunc (r timeoutReader) Read(b []byte) (int, error) {"),
+     (SR, "			_, err := svc.out.WriteTo(conn)\n", "			_, err := svc.out.WriteTo(timeoutWriter{d: time.Minute, conn: conn})\n")])
+pos("C20", "client-unsubscribe-walks-captured-filters", "the UNSUBACK closure walks the filter slice of the caller's message, captured when the request was sent",
+    [(SVC, "	var onc OnCompleteFunc = func(msg, ack message.Message, err error) error {\n		onComplete := onComplete\n\n		if err != nil {\n			if onComplete != nil {\n				return onComplete(msg, ack, err)\n			}\n			return err\n		}\n\n		unsub", "	filters := msg.Topics()\n\n	var onc OnCompleteFunc = func(msg, ack message.Message, err error) error {\n		onComplete := onComplete\n\n		if err != nil {\n			if onComplete != nil {\n				return onComplete(msg, ack, err)\n			}\n			return err\n		}\n\n		unsub"),
+     (SVC, "		for _, tb := range unsub.Topics() {", "		for _, tb := range filters {")],
+    ["C20/P4-loop-contract/client-unsubscribe:walks-the-stored-request"])
+pos("C05", "fanout-stops-at-first-dead-subscriber", "a failing delivery ends the fan-out: the subscribers listed after a dead one miss the message",
+    [(PROC, "			if err := (*fn)(msg); err != nil {\n				log.Warningf(\"%v\", err)\n			}", "			if err := (*fn)(msg); err != nil {\n				return err\n			}")],
+    ["C05/P4-loop-contract/onPublish:fan-out"])
+pos("C17", "readpeek-returns-whole-scratch", "the sender's peek returns the whole scratch buffer after a copy-based assembly",
+    [(BUF, "			// reset the tmp buffer\n			bf.tmp = bf.tmp[0:0]\n\n			l := len(bf.buf[cindex:])\n			bf.tmp = append(bf.tmp, bf.buf[cindex:]...)\n			bf.tmp = append(bf.tmp, bf.buf[0:m-int64(l)]...)\n			return bf.tmp, err",
+            "			if int64(len(bf.tmp)) < m {\n				bf.tmp = make([]byte, m)\n			}\n\n			l := copy(bf.tmp, bf.buf[cindex:])\n			copy(bf.tmp[l:], bf.buf[0:m-int64(l)])\n			return bf.tmp, err")],
+    ["C17/B11-ring-space-accounting/ReadPeek:return"])
+for _p in ("C01", "C07"):
+    pos(_p, "sremove-ends-on-empty-remainder", "the unsubscribe walk ends on an empty remainder: 'x/' is removed as 'x'",
+        [(MT, "func (sn *snode) sremove(topic []byte, sub interface{}) error {\n	// If the topic is empty, it means we are at the final matching snode. If so,\n	// let's find the matching subscribers and remove them.\n	if topic == nil {", "func (sn *snode) sremove(topic []byte, sub interface{}) error {\n	// If the topic is empty, it means we are at the final matching snode. If so,\n	// let's find the matching subscribers and remove them.\n	if len(topic) == 0 {")],
+        [_p + "/T9-level-structure/sremove:end-of-levels-signal-unambiguous"])
+
 
 def main():
     os.makedirs(OUT, exist_ok=True)
